@@ -259,6 +259,29 @@ def op_gd_location(fs, d, r, keep_csum):
     return "group %d descriptor %s location changed" % (g, which[1])
 
 
+GD_VARIANTS = [("itable_zero_g0", "ext2_noflex"), ("itable_zero_g0", "ext4_1k"), ("itable_unused_huge", "ext4_metabg48"), ("itable_unused_huge", "ext4_1k"),
+               ("bitmaps_zero_g0", "ext2_noflex"), ("itable_zero_last", "ext4_1k"), ("itable_unused_huge", "ext4_2k_64"), ("free_counts_huge", "ext4_metabg48")]
+
+
+def op_gd_variant(fs, d, r, keep_csum, which="itable_zero_g0"):
+    """descriptor fields at values the tools meet only on damaged filesystems (checksums valid): a table location of 0 is the
+    'missing, to be relocated' marker of e2fsck; bg_itable_unused beyond the group size is subtracted from the table length by e2image"""
+    g = fs.groups_count - 1 if which.endswith("_last") else 0
+    if which == "itable_unused_huge":
+        g = r.randrange(fs.groups_count)
+    a = gd_loc(fs, g)
+    if which.startswith("itable_zero"):
+        struct.pack_into("<I", d, a + 8, 0)
+    elif which == "bitmaps_zero_g0":
+        struct.pack_into("<II", d, a, 0, 0)
+    elif which == "itable_unused_huge":
+        struct.pack_into("<H", d, a + 28, 0xFFFF)
+    elif which == "free_counts_huge":
+        struct.pack_into("<HHH", d, a + 12, 0xFFFF, 0xFFFF, 0xFFFF)
+    fix_gd_csum(fs, d, g)
+    return "group %d descriptor: %s (checksum re-computed)" % (g, which)
+
+
 def op_inode_field(fs, d, r, keep_csum):
     cands = regular_files(fs) + directories(fs)
     ino = r.choice(cands)
@@ -325,6 +348,31 @@ def op_extent(fs, d, r, keep_csum):
     if keep_csum:
         fix_inode_csum(fs, d, ino)
     return "inode %d extent %s changed" % (ino, k)
+
+
+ORPHAN_VARIANTS = ["entries", "magic", "start", "len"]
+
+
+def op_orphan_file(fs, d, r, keep_csum, which="entries"):
+    """the extent map of the orphan file inode (s_orphan_file_inum), checksums valid: e2fsck clears or truncates the inode in
+    pass 1 and has to recreate the file at the end of the run"""
+    ino = struct.unpack_from("<I", fs.sb_raw, 0x280)[0]
+    if not fs.compat & 0x1000 or not ino:
+        raise FormatError("no orphan file")
+    a = fs.inode_loc(ino) + 40
+    magic, entries, mx, depth = struct.unpack_from("<HHHH", d, a)
+    if which == "entries":
+        struct.pack_into("<H", d, a + 2, mx + 3)
+        struct.pack_into("<I", d, a + 12 + 8, fs.blocks_count * 60 + 10)
+    elif which == "magic":
+        struct.pack_into("<H", d, a, 0xF30B)
+        struct.pack_into("<I", d, a + 12 + 8, fs.blocks_count + 10)
+    elif which == "start":
+        struct.pack_into("<I", d, a + 12 + 8, fs.blocks_count + 10)
+    else:
+        struct.pack_into("<H", d, a + 12 + 4, 2)
+    fix_inode_csum(fs, d, ino)
+    return "orphan file inode %d extent %s changed" % (ino, which)
 
 
 def op_dirent(fs, d, r, keep_csum):
